@@ -17,7 +17,7 @@ facts about its DFS.  The gap is exactly "dom_lt never produces a tree that `che
 the harness runs the checker on every graph it compares, so every compared answer is certified.
 -/
 import AgVerif.Proof.DomRef
-import AgVerif.Model.DomLT
+import AgVerif.Proof.DomLT
 namespace AgVerif.C18
 open AgVerif AgVerif.Spec AgVerif.DomRef AgVerif.DomLT
 
@@ -116,6 +116,47 @@ theorem domLT_certified (g : Digraph) (hwf : g.WF) (r : DomLT.Result) (h : domLT
     | some o =>
       rw [hdv] at hn; simp at hn
       exact absurd (hn ▸ hdv) (hs v hne)
+
+/-- Step 1 of `dom_lt` (the recursive DFS) terminates on every well-formed graph … -/
+theorem domLT_dfs_total (g : Digraph) (hwf : g.WF) : ∃ s n, dfs g (dfsFuel g) = some (s, n) :=
+  dfs_total g hwf
+
+/-- … and leaves: `semi` = a bijection between the reachable vertices and 1..n with inverse `vertex`
+    (entry ↦ 1), `parent` = a spanning tree of graph edges numbered increasingly, `pred[w]` = exactly
+    the reachable predecessors of w, and every vertex its own `label` with no `ancestor`. -/
+theorem domLT_dfs_facts (g : Digraph) (f : Nat) (s : St) (n : Nat) (h : dfs g f = some (s, n)) :
+    DfsFacts g s n :=
+  dfs_facts g f s n h
+
+/-- `_compress(v)` terminates without `KeyError` whenever the link-eval forest is well formed for some
+    rank function (every `ancestor` pointer goes to a strictly smaller rank) and the fuel exceeds
+    `rank v`; it keeps the forest well formed.  (Ancestor chains strictly decrease in rank.) -/
+theorem compress_terminates (rank : Nat → Nat) (f : Nat) (s : St) (v : Nat) (hF : Forest rank s)
+    (hf : rank v < f) (hu : ∃ u, s.ancestor v = some (some u)) :
+    ∃ s', compress f s v = some s' ∧ Forest rank s' ∧ Frame s s' :=
+  compress_total rank f s v hF hf hu
+
+/-- `_eval(v)` returns on every vertex that has been numbered (has an `ancestor` key) -/
+theorem eval_terminates (rank : Nat → Nat) (f : Nat) (s : St) (v : Nat) (hF : Forest rank s)
+    (hf : rank v < f) (hk : s.ancestor v ≠ none) :
+    ∃ s' u, eval f s v = some (s', u) ∧ Forest rank s' ∧ Frame s s' :=
+  eval_total rank f s v hF hf hk
+
+/-- The rank is the DFS number: after Step 1 the forest is well formed for `rank = semi` (≤ n, so the
+    fuel `n + 1` used by `domLT` suffices), and `_link(parent[w], w)` keeps it well formed. -/
+theorem forest_rank_is_dfnum (g : Digraph) (f : Nat) (s : St) (n : Nat) (h : dfs g f = some (s, n)) :
+    Forest s.semi s ∧ (∀ v, s.semi v ≤ n) ∧
+    ∀ (s' : St) (w pw : Nat), Forest s.semi s' → s.parent w = some pw →
+      s'.ancestor pw ≠ none → s'.ancestor w ≠ none →
+      Forest s.semi { s' with ancestor := upd s'.ancestor w (some (some pw)) } := by
+  have hfacts := dfs_facts g f s n h
+  refine ⟨forest_after_dfs hfacts, ?_, ?_⟩
+  · intro v
+    by_cases hv : s.semi v = 0
+    · omega
+    · exact (hfacts.semi_vertex v hv).2.1
+  · intro s' w pw hF hp hk1 hk2
+    exact forest_link hF (hfacts.parent_lt w pw hp).2.2 hk1 hk2
 
 /-- the full statement follows from "the checker never rejects the model's answer" — the remaining gap -/
 theorem domlt_correct_of_always_certified
